@@ -149,3 +149,46 @@ def top_paths(paths):
         else:
             s.add(segs[0])
     return sorted(s)
+
+
+def deep_equal(a, b) -> bool:
+    """Equality of JSON-like values with NaN == NaN and int/float distinguished."""
+    if isinstance(a, dict) and isinstance(b, dict):
+        return a.keys() == b.keys() and all(deep_equal(a[k], b[k]) for k in a)
+    if isinstance(a, list) and isinstance(b, list):
+        return len(a) == len(b) and all(deep_equal(x, y) for x, y in zip(a, b))
+    if isinstance(a, float) and isinstance(b, float) and a != a and b != b:
+        return True
+    return type(a) is type(b) and a == b
+
+
+def top_diff(a, b):
+    """Seed-stable labels of where two documents differ: every differing top-level key, one level deeper for
+    info/settings/model, and field names (not split names) under submodels."""
+    if not (isinstance(a, dict) and isinstance(b, dict)):
+        return [] if deep_equal(a, b) else ["/"]
+    out = set()
+    for k in sorted(set(a) | set(b), key=str):
+        if k not in a or k not in b:
+            out.add(str(k))
+            continue
+        x, y = a[k], b[k]
+        if deep_equal(x, y):
+            continue
+        if k in ("info", "settings", "model") and isinstance(x, dict) and isinstance(y, dict):
+            for kk in sorted(set(x) | set(y), key=str):
+                if kk not in x or kk not in y or not deep_equal(x[kk], y[kk]):
+                    out.add(f"{k}/{kk}")
+        elif k == "submodels" and isinstance(x, dict) and isinstance(y, dict):
+            if x.keys() != y.keys():
+                out.add("submodels")
+            for sk in set(x) & set(y):
+                if isinstance(x[sk], dict) and isinstance(y[sk], dict):
+                    for f in sorted(set(x[sk]) | set(y[sk])):
+                        if not deep_equal(x[sk].get(f), y[sk].get(f)):
+                            out.add(f"submodels/*/{f}")
+                elif not deep_equal(x[sk], y[sk]):
+                    out.add("submodels")
+        else:
+            out.add(str(k))
+    return sorted(out)
